@@ -40,6 +40,18 @@ Lemma go_for_upto_all {R} (p : byte -> bool) (r : R) (l : bytes) (body : Z -> op
   go_for_upto (length l) body = Some (if forallb p l then None else Some r).
 Proof. intros H. apply (go_for_from_all p r body l []). intros i b Hi _. apply H. exact Hi. Qed.
 
+(* `n := len(l); for i := 0; i < n; i++` is the loop over l *)
+Lemma go_for_range_len {R} (l : bytes) (body : Z -> option (option R)) :
+  go_for_range 0 (go_len l) body = go_for_upto (length l) body.
+Proof. unfold go_for_range, go_for_upto, go_len. rewrite Z.sub_0_r, Nat2Z.id. reflexivity. Qed.
+
+Example go_for_range_examples :
+  go_for_range 2 5 (fun i => if (i =? 4)%Z then go_break i else go_continue) = Some (Some 4%Z)
+  /\ go_for_range 2 4 (fun i => if (i =? 4)%Z then go_break i else go_continue) = Some None
+  /\ go_for_range 5 2 (fun i => go_break i) = Some None
+  /\ go_for_range 0 3 (fun i => if (i =? 1)%Z then None else @go_continue Z) = None.
+Proof. repeat split. Qed.
+
 Ltac is_nat_num n := lazymatch n with O => idtac | S ?m => is_nat_num m end.
 (* closed conversions of small index constants: Z.to_nat 1 ~> 1%nat, so that both sides name the same element *)
 Ltac tie_nums :=
